@@ -22,8 +22,9 @@
 
   Modelled as they are in the unchanged tree (DESIGN.md §6): F6 (only `len(Data())` credited back),
   F7 (`headerContinuation.complete` forces END_STREAM), F14 (frames are split when queued, not when
-  sent), F21 (encode at processing time, send at release time); zero-cost frames wait behind a
-  negative stream window (`0 > windowSize`).
+  sent), F21 (encode at processing time, send at release time), F51 (`applySettings`: the queues are
+  scanned after every SETTINGS_INITIAL_WINDOW_SIZE value of a frame, not once per frame); zero-cost
+  frames wait behind a negative stream window (`0 > windowSize`).
 -/
 import FwdVerif.Lib.Wire
 
